@@ -744,17 +744,40 @@ struct PrimCase {
 }
 
 fn prim_case() -> impl Strategy<Value = PrimCase> {
-    (gen::int(Prof::Small), any::<i128>(), 0u8..6, 0u8..10).prop_map(|(a, p, width, shape)| {
+    (gen::int(Prof::Small), any::<i128>(), 0u8..6, 0u8..12, 0u8..10, any::<bool>(), any::<u8>()).prop_map(|(a, p, width, shape, rel, neg, k)| {
+        // the extreme values of the primitive type of this width (`p as $t` keeps them)
+        let bits = [8u32, 16, 32, 64, 128, usize::BITS][width as usize];
+        let tmin = if bits == 128 { i128::MIN } else { -(1i128 << (bits - 1)) };
+        let tmax = -(tmin + 1);
         let p = match shape {
             0 => 0,
             1 => 1,
             2 => -1,
-            3 => i128::MAX,
-            4 => i128::MIN,
+            3 => tmax,
+            4 => tmin,
             5 => 3,
             6 => p % 1000,
+            7 => tmin + 1,
+            8 => 1i128 << (k as u32 % (bits - 1)),
             _ => p,
         };
+        // the big operand next to the primitive: same magnitude, one off, the type's 2^(N-1), 2^N
+        let from_u128 = |m: u128, extra: bool| -> Nat {
+            let mut w = vec![m as u64, (m >> 64) as u64];
+            if extra {
+                w.push(1);
+            }
+            Nat(w)
+        };
+        let pm = p.unsigned_abs();
+        let a = match rel {
+            6 => Int { neg, mag: from_u128(pm, false) },
+            7 => Int { neg, mag: from_u128(if k & 1 == 0 { pm.wrapping_add(1) } else { pm.wrapping_sub(1) }, false) },
+            8 => Int { neg, mag: from_u128(tmin.unsigned_abs(), false) },
+            9 => Int { neg, mag: if bits == 128 { from_u128(0, true) } else { from_u128(1u128 << bits, false) } },
+            _ => a,
+        };
+        let a = if a.mag.is_zero() { Int { neg: false, mag: a.mag } } else { a };
         PrimCase { a, p, width }
     })
 }
